@@ -27,7 +27,7 @@ ASAN_BAD = ("heap-buffer-overflow", "stack-buffer-overflow", "global-buffer-over
 
 
 def _asan_kind(report):
-    m = re.search(r"ERROR: AddressSanitizer:? ([A-Za-z\-]+(?: [a-z\-]+)?)", report)
+    m = re.search(r"ERROR: AddressSanitizer:? (attempting [a-z\-]+|[A-Za-z\-]+)", report)
     return m.group(1).strip() if m else "unparsed"
 
 
